@@ -590,10 +590,18 @@ class C05Machine(Machine):
             # leave out blank or redundant entries of the collections) is seen by making the same call on a
             # converter WITHOUT records; that record is the submission the model is fed
             eff = self._built_by_add_prefix(op, cs, merge)
-            if eff is not None:
-                if eff != rd:
+            if eff is not None and eff != rd:
+                # ... but a name of the submission that is MISSING from that record only counts as left out
+                # by design if add_prefix also leaves it out when it is the only synonym given (a blank); a
+                # name that disappears because of its company (a case twin in the same collection, say) is a
+                # name the caller registered and that must resolve
+                lost_c = [n for n in rd["prefix_synonyms"] if n not in [eff["prefix"], *eff["prefix_synonyms"]]]
+                lost_u = [n for n in rd["uri_prefix_synonyms"] if n not in [eff["uri_prefix"], *eff["uri_prefix_synonyms"]]]
+                if all(self._dropped_alone(n, "c") for n in lost_c) and all(self._dropped_alone(n, "u") for n in lost_u):
                     self.event("add_prefix_builds_another_record_than_its_arguments_spell")
-                rd = eff
+                    rd = eff
+                else:
+                    self.event("add_prefix_loses_a_name_because_of_its_company")
         mrec = MRecord.from_dump(rd)
         self.last_names = [rd["prefix"], *rd["prefix_synonyms"]][:4]
         self.n_calls += 1
@@ -809,6 +817,22 @@ class C05Machine(Machine):
         if not self.dirty:
             self._check_consistent(self.snap, "flood of lookups", submitted=None, target=None)
         return {"flood": len(asked)}
+
+    def _dropped_alone(self, name, side):
+        memo = self.__dict__.setdefault("_alone", {})
+        if (name, side) not in memo:
+            c = self.curies
+            try:
+                e = c.Converter([], delimiter=self.delimiter0)
+                if side == "c":
+                    e.add_prefix("zzq", "zzq:", prefix_synonyms=[name])
+                    memo[(name, side)] = name not in e.records[0].prefix_synonyms
+                else:
+                    e.add_prefix("zzq", "zzq:", uri_prefix_synonyms=[name])
+                    memo[(name, side)] = name not in e.records[0].uri_prefix_synonyms
+            except Exception:  # noqa: BLE001
+                memo[(name, side)] = True
+        return memo[(name, side)]
 
     def _built_by_add_prefix(self, op, cs, merge):
         c = self.curies
